@@ -454,28 +454,43 @@ def r3(tree, rep):
     env = local_int_env(pf)
     ev = lambda e: eval_int(e, env) if e is not None else None
     rl = lambda e: resolve_local(pf, e) if isinstance(e, ast.Name) and e.id not in env else e
+    g = build(pf, split=True)
+    # the buffer as it was on entry: self._buffer before its rebinding, or a local snapshot of it taken before the rebinding
+    rebind = g.nodes(lambda st: isinstance(st, (ast.Assign, ast.AugAssign)) and any(
+        is_self_attr(t, "_buffer") for t in (st.targets if isinstance(st, ast.Assign) else [st.target])))
+    after_rebind = g.reach([y for n in rebind for (y, lab) in g.succ[n] if lab != 'exc']) if rebind else set()
+    stores = [x.id for x in ast.walk(pf) if isinstance(x, ast.Name) and isinstance(x.ctx, ast.Store)]
+    snaps = {a.targets[0].id for a in ast.walk(pf) if isinstance(a, ast.Assign) and len(a.targets) == 1 and isinstance(a.targets[0], ast.Name)
+             and is_self_attr(a.value, "_buffer") and stores.count(a.targets[0].id) == 1 and g.node_of(a) not in after_rebind}
+    is_buf = lambda e: is_self_attr(e, "_buffer") or (isinstance(e, ast.Name) and e.id in snaps)
     lens = [n for n in ast.walk(pf) if isinstance(n, ast.Assign) and isinstance(n.value, ast.Call) and dotted(n.value.func) == "from_be4"
             and isinstance(n.targets[0], ast.Name)]
     ok = len(lens) == 1
     if ok:
         lv = lens[0].targets[0].id
         sb = slice_bounds(lens[0].value.args[0])
-        ok = sb is not None and is_self_attr(sb[0], "_buffer") and (ev(sb[1]) if sb[1] is not None else 0) == 0 and ev(sb[2]) == 4
+        ok = sb is not None and is_buf(sb[0]) and (ev(sb[1]) if sb[1] is not None else 0) == 0 and ev(sb[2]) == 4
 
         def four_plus(e):
             e = rl(e)
             return isinstance(e, ast.BinOp) and isinstance(e.op, ast.Add) and (
                 (ev(e.left) == 4 and isinstance(e.right, ast.Name) and e.right.id == lv)
                 or (ev(e.right) == 4 and isinstance(e.left, ast.Name) and e.left.id == lv))
-        is_buflen = lambda e: isinstance(e, ast.Call) and dotted(e.func) == "len" and len(e.args) == 1 and is_self_attr(e.args[0], "_buffer")
+        is_buflen = lambda e: isinstance(e, ast.Call) and dotted(e.func) == "len" and len(e.args) == 1 and is_buf(e.args[0])
         have_prefix = ge_atom(is_buflen, lambda e: ev(rl(e)) == 4)
         have_frame = ge_atom(is_buflen, four_plus)
-        sl = [slice_bounds(x) for x in ast.walk(pf) if isinstance(x, ast.Subscript) and is_self_attr(x.value, "_buffer") and slice_bounds(x)]
+        subs = [x for x in ast.walk(pf) if isinstance(x, ast.Subscript) and is_buf(x.value) and slice_bounds(x)]
+        sl = [slice_bounds(x) for x in subs]
         body = [x for x in sl if x[1] is not None and ev(rl(x[1])) == 4 and x[2] is not None and four_plus(x[2])]
         rest = [x for x in sl if x[1] is not None and four_plus(x[1]) and x[2] is None]
         ok = ok and len(body) == 1 and len(rest) == 1
+        # a slice of self._buffer itself is taken before the buffer is rebound (afterwards it would be a slice of the rest)
+        from ..astutil import enclosing_stmt as enclosing_statement
+        for x in subs:
+            if is_self_attr(x.value, "_buffer"):
+                n = g.node_of(enclosing_statement(x))
+                ok = ok and (n is None or n not in after_rebind)
         # nothing is yielded (and the length is not even read) before the bytes it needs are there
-        g = build(pf, split=True)
         fr = g.call_nodes(lambda c: dotted(c.func) == "Frame")
         rd = [g.node_of(lens[0])]
         ok = ok and len(fr) == 1 and bool(g.cond_edges(have_prefix, False)) and bool(g.cond_edges(have_frame, False)) \
@@ -687,6 +702,8 @@ MUTANTS = [
     Mutant("max-payload-changed", NOI, "NOISE_MAX_PAYLOAD = (2**16 - 1) - 16", "NOISE_MAX_PAYLOAD = (2**16 - 1)", "C12.R2"),
     Mutant("sender-threshold-lt", CON, "        if len(message) <= NOISE_MAX_PAYLOAD:", "        if len(message) < NOISE_MAX_PAYLOAD - 1:", "C12.R2"),
     Mutant("frame-len-of-message", CON, "        self._transport.write(to_be4(len(frame)) + frame)", "        self._transport.write(to_be4(len(frame) + 4) + frame)", "C12.R3"),
+    Mutant("frame-sliced-after-consume", CON, "        frame = self._buffer[4:4 + frame_length]\n        self._buffer = self._buffer[4 + frame_length:]  # TODO: avoid copy",
+           "        rest = self._buffer[4 + frame_length:]\n        self._buffer = rest\n        frame = self._buffer[4:4 + frame_length]", "C12.R3"),
     Mutant("noise-error-escapes", CON, "            log.err(e, \"bad inbound noise frame\")\n            raise Disconnect()", "            log.err(e, \"bad inbound noise frame\")\n            return None", "C12.R4"),
     Mutant("prologue-divergence-ignored", CON, "        if not expected.startswith(self._buffer):\n            # we're not on track", "        if True:\n            # we're not on track", "C12.R4"),
     Mutant("disconnect-not-lost", CON, "        except Disconnect:\n            self.transport.loseConnection()", "        except Disconnect:\n            pass", "C12.R4"),
